@@ -523,4 +523,32 @@ theorem readAll_exportFile (hash c : Bytes) (k r : Option Bytes) :
   simp only [readAll_blocks bl 4 hbl hlen]
   cases k <;> cases r <;> simp [bl]
 
+/-- **the hash gopki stores is the hash gopki reads**: from the text `exportPemFile` writes, `importCertConfigFile`'s
+    scan returns exactly the hash that was written — whatever blocks follow, for hashes of any length -/
+theorem readHash_exportFile (hash : Bytes) (c k r : Option Bytes) : readHash (exportFile hash c k r) = some hash := by
+  obtain ⟨rest, hrest⟩ : ∃ rest, exportFile hash c k r = (hashPrefix ++ enc hash) ++ nl :: rest := by
+    refine ⟨(match c with | some x => encode tCertificate x | none => []) ++
+      (match k with | some x => encode tPrivateKey x | none => []) ++ (match r with | some x => encode tRequest x | none => []), ?_⟩
+    cases c <;> cases k <;> cases r <;> simp [exportFile, List.append_assoc]
+  have hnl : ∀ x ∈ hashPrefix ++ enc hash, x ≠ nl := by
+    intro x hx
+    rw [List.mem_append] at hx
+    rcases hx with hx | hx
+    · simp only [hashPrefix, List.mem_cons, List.not_mem_nil, or_false] at hx
+      rcases hx with rfl | rfl | rfl | rfl | rfl | rfl <;> decide
+    · exact (plain_ne (List.all_eq_true.mp (enc_plain hash) x hx)).1
+  have hidx : indexOf hashPrefix (exportFile hash c k r) = some 0 := by
+    rw [hrest, List.append_assoc]
+    cases hx : hashPrefix ++ (enc hash ++ nl :: rest) with
+    | nil => simp [hashPrefix] at hx
+    | cons a b => simp only [indexOf]; rw [← hx, isPrefix_append]; rfl
+  unfold readHash
+  rw [hidx]
+  simp only [List.drop_zero]
+  rw [hrest, splitNl_plain _ rest hnl]
+  simp only
+  have : (hashPrefix ++ enc hash).drop hashPrefix.length = enc hash := by simp
+  rw [this]
+  exact V1.goB64Decode_enc hash
+
 end Pem
